@@ -93,8 +93,8 @@ class Ctx:
             self.stats['functions_analysed'] += 1
 
     # -- the workhorse: code table vs reference table ------------------------------
-    def paths(self, cls: Optional[ClassInfo], f: FuncInfo, opts: Optional[Options] = None) -> List[Path]:
-        self.touch(f, primary=True)
+    def paths(self, cls: Optional[ClassInfo], f: FuncInfo, opts: Optional[Options] = None, primary: bool = True) -> List[Path]:
+        self.touch(f, primary=primary)
         ps, ex = function_paths(self.repo, cls, f, opts)
         self.stats['paths_enumerated'] += ex.npaths
         return ps
